@@ -36,6 +36,7 @@ VARIANTS = {
                  ['-DHAS_PTHREAD=1', '-DHAS_UNISTD=1', '-DHAS_GETOPT=1', '-DHAS_LIBGEN=1', '-DHAS_GLOB=1'],
                  ['-lpthread', '-lm']),
     'bigendian': ('gcc', ['-O1', '-g0', '-w', '-DWASM_ENDIAN=1'], None, ['-lpthread', '-lm']),
+    'vsched': ('gcc', ['-O1', '-g0', '-w'], None, ['-lpthread', '-lm']),
 }
 
 ASAN_ENV = {'ASAN_OPTIONS': 'detect_leaks=0:exitcode=99:abort_on_error=0:allocator_may_return_null=1:'
@@ -114,8 +115,19 @@ def run(cmd, **kw):
     return subprocess.run(cmd, stdout=subprocess.PIPE, stderr=subprocess.PIPE, **kw)
 
 
+VSCHED_WRAP = ['pthread_mutex_init', 'pthread_mutex_destroy', 'pthread_mutex_lock', 'pthread_mutex_unlock', 'pthread_cond_init',
+               'pthread_cond_destroy', 'pthread_cond_wait', 'pthread_cond_timedwait', 'pthread_cond_signal',
+               'pthread_cond_broadcast', 'pthread_create', 'pthread_join']
+
+
 def w2c2_binary(variant='plain', extra_link=None, extra_name=''):
     """build (or reuse) the w2c2 executable of the given variant from /repo's current working tree"""
+    if variant == 'vsched' and extra_link is None:
+        # the translator with its worker pool under the deterministic scheduler (no source change: linker interposition)
+        vs = os.path.join(VERIF, 'c', 'vsched.c')
+        tag = hashlib.sha256(open(vs, 'rb').read()).hexdigest()[:8]
+        return w2c2_binary('vsched', extra_link=['-I', os.path.join(VERIF, 'c'), vs, '-Wl,' + ','.join('--wrap=' + w for w in VSCHED_WRAP)],
+                           extra_name='-' + tag)
     cd = cache_dir()
     out = os.path.join(cd, 'w2c2-' + variant + extra_name)
     if os.path.exists(out):
